@@ -35,6 +35,7 @@ const VARIANTS: &[&str] = &[
     "routing_changed",
     "invalid_syntax",
     "invalid_default_role",
+    "invalid_default_shard",
     "invalid_two_primaries",
     "invalid_min_pool_size",
 ];
@@ -182,6 +183,8 @@ fn scenario(seed: u64, variant: &str, trigger: &str, rep: &Report) -> Result<(),
         "sharding_changed" | "routing_changed" => mk_routing(&cell, true).to_toml(port),
         "invalid_syntax" => format!("{}\n[pools.pa\nthis is = not toml", old_toml),
         "invalid_default_role" => mk(&cell, a2, true, false, 3, "transaction", 60, auto).to_toml(port).replacen("default_role = \"any\"", "default_role = \"bogus\"", 1),
+        // one past the last shard: pa has exactly one shard (shard_0)
+        "invalid_default_shard" => mk(&cell, a2, true, false, 3, "transaction", 60, auto).to_toml(port).replacen("default_role = \"any\"", "default_role = \"any\"\ndefault_shard = \"shard_1\"", 1),
         "invalid_two_primaries" => {
             let t = mk(&cell, a2, true, false, 3, "transaction", 60, auto).to_toml(port);
             let s = cell.server(a2, "primary");
@@ -279,6 +282,9 @@ fn scenario(seed: u64, variant: &str, trigger: &str, rep: &Report) -> Result<(),
     let ev0 = cell.pg().events().len();
     let t_start = now_ns();
     cell.pg().rewrite_config(&new_toml);
+    // (the harness thread may be descheduled between t_start and the write on a busy machine:
+    // autoreload ticks are anchored on the moment the new file was completely in place)
+    let t_written = now_ns();
     let t_after: u64;
     match trigger {
         "admin_reload" => {
@@ -313,7 +319,7 @@ fn scenario(seed: u64, variant: &str, trigger: &str, rep: &Report) -> Result<(),
                 // an autoreload tick may have READ the old file just before the rewrite and store it
                 // afterwards: only the second store after the rewrite is certain to be the new file
                 let need = if trigger == "autoreload" { 2 } else { 1 };
-                let stored: Vec<u64> = evs.iter().filter(|e| e.1 == "reload.stored" && e.0 > t_start + 1_000_000).map(|e| e.0).collect();
+                let stored: Vec<u64> = evs.iter().filter(|e| e.1 == "reload.stored" && e.0 > t_written).map(|e| e.0).collect();
                 if stored.len() >= need {
                     let ts = stored[need - 1];
                     if evs.iter().any(|e| e.1 == "reload.end" && e.0 >= ts) {
@@ -498,7 +504,7 @@ pub fn run(tier: &str) -> i32 {
         "C14",
         tier,
         "exploration",
-        "scenario = old/new config pair from {unchanged, general-only change, servers changed, pool added, pool removed, user changed, mode changed, syntactically invalid, 3 semantically invalid} x trigger {admin RELOAD, SIGHUP, autoreload} with looping clients on every pool, a transaction straddling the reload per pool and a late client of the added pool; each pool generation has its own labelled mocks; oracle = label of the mock serving each tagged statement relative to the reload's end (RELOAD reply / reload.end hook event), session close events of unchanged pools, SHOW CONFIG / SHOW DATABASES before/after for invalid files; distinct = (variant, trigger) pairs",
+        "scenario = old/new config pair from {unchanged, general-only change, servers changed, pool added, pool removed, user changed, mode changed, syntactically invalid, 4 semantically invalid} x trigger {admin RELOAD, SIGHUP, autoreload} with looping clients on every pool, a transaction straddling the reload per pool and a late client of the added pool; each pool generation has its own labelled mocks; oracle = label of the mock serving each tagged statement relative to the reload's end (RELOAD reply / reload.end hook event), session close events of unchanged pools, SHOW CONFIG / SHOW DATABASES before/after for invalid files; distinct = (variant, trigger) pairs",
     );
     rep.assume("validate_config = false in generated files (a valid file naming unreachable servers is outside the property)");
     let thorough = rep.thorough();
